@@ -331,7 +331,18 @@ class SqlalchemyRender:
         return sa.case(*conditions, else_=default, value=value)
 
     def to_function(self, t):
-        op = getattr(sa.func, t.op)
+        try:
+            sa_function = getattr(sa.func, t.op)
+        except AttributeError:
+            raise NotImplementedError(f'Function name: {t.op}')
+
+        def op(*args):
+            try:
+                return sa_function(*args)
+            except (TypeError, AssertionError) as e:
+                # not the signature sqlalchemy has for this name (count(a, b), char_length(), next_value(a))
+                raise NotImplementedError(f'Function {t.op}: {e}')
+
         if t.from_arg is not None:
             arg = t.args[0].to_string()
             from_arg = self.to_expression(t.from_arg)
@@ -342,7 +353,7 @@ class SqlalchemyRender:
                 self.to_expression(i)
                 for i in t.args
             ]
-            if t.distinct:
+            if t.distinct and len(args) > 0:
                 # set first argument to distinct
                 args[0] = args[0].distinct()
             fnc = op(*args)
